@@ -66,6 +66,11 @@ func genC03(r *Rand, tier, profile string) *Case {
 		t += gap
 		ts = append(ts, tstep{t, Step{K: "pub", C: 0, T: "r/x", S: fmt.Sprintf("m%d", i+1), Q: r.Intn(2), I: int64(i + 1)}})
 	}
+	if r.Bool(0.25) {
+		// one more while the slowest exchanges are still waiting (for a PUBACK, PUBREC or PUBCOMP)
+		late := t + int64(r.Range(3200, 9000))
+		ts = append(ts, tstep{late, Step{K: "pub", C: 0, T: "r/x", S: fmt.Sprintf("m%d", np+1), Q: 1 + r.Intn(2), I: int64(np + 1)}})
+	}
 	// some subscribers leave in the middle of their exchanges
 	for i := 1; i <= ns; i++ {
 		if r.Bool(0.25) {
@@ -207,7 +212,72 @@ func hasEqualInstantPeer(cl *simClient, ex *rxExchange) bool {
 }
 
 func runC03(t *testing.T, c *Case) *Outcome {
-	return runE1(t, c, profileHooks{judge: judgeRetx})
+	return runE1(t, c, profileHooks{judge: func(w *world) {
+		judgeRetx(w)
+		// "after completion or session end ... its identifier becomes reusable": not before. Two
+		// exchanges open at the same time on the node never share an identifier.
+		if a, b, ok := w.overlappingIDs(); ok {
+			w.o.violate("C03", "identifier-reused-before-completion", len(w.c.Steps), w.nowMs(), map[string]string{"same_connection": fmt.Sprint(a.client == b.client)},
+				"identifier %d was in flight for %s to client %d from %dms to %dms and was used again for %s to client %d at %dms", a.pid, a.tag, a.client, a.from, a.to, b.tag, b.client, b.from)
+		}
+	}})
+}
+
+type idSpan struct {
+	client, pid int
+	tag         string
+	from, to    int64
+	node        int
+}
+
+// idSpans: for every QoS>0 delivery a client saw, the period during which the exchange held its
+// identifier (first PUBLISH until the client's final acknowledgement or the end of its session).
+func (w *world) idSpans() []idSpan {
+	endMs := w.nowMs()
+	var spans []idSpan
+	ids := make([]int, 0, len(w.clients))
+	for id := range w.clients {
+		ids = append(ids, id)
+	}
+	sort.Ints(ids)
+	for _, id := range ids {
+		cl := w.clients[id]
+		f := w.lifeFactsOf(cl)
+		for _, ex := range cl.exch {
+			if ex.qos == 0 {
+				continue
+			}
+			to := endMs + 1
+			final := tPUBACK
+			if ex.qos == 2 {
+				final = tPUBCOMP
+			}
+			for _, ob := range w.obs {
+				if !ob.Rx && ob.Client == id && ob.Epoch == cl.epoch && ob.P.Type == final && ob.P.Pid == ex.pid && ob.AtMs >= ex.firstAt {
+					to = ob.AtMs
+					break
+				}
+			}
+			if f.cause != "" && f.causeAt < to {
+				to = f.causeAt
+			}
+			spans = append(spans, idSpan{client: id, pid: ex.pid, tag: ex.tag, from: ex.firstAt, to: to, node: cl.node})
+		}
+	}
+	return spans
+}
+
+func (w *world) overlappingIDs() (idSpan, idSpan, bool) {
+	spans := w.idSpans()
+	for i := range spans {
+		for j := i + 1; j < len(spans); j++ {
+			a, b := spans[i], spans[j]
+			if a.node == b.node && a.pid == b.pid && a.from < b.to && b.from < a.to {
+				return a, b, true
+			}
+		}
+	}
+	return idSpan{}, idSpan{}, false
 }
 
 // ---------------------------------------------------------------------------------------
@@ -736,7 +806,20 @@ func genC06E1(r *Rand, tier, profile string) *Case {
 	// earlier exchanges are still waiting for their (late, wrong or missing) acknowledgements
 	var extra []Step
 	n := r.Range(2, 10)
+	ns := 0
+	for _, s := range c.Steps {
+		if s.K == "ackplan" {
+			ns++
+		}
+	}
+	wf := -1
+	if ns > 0 && r.Bool(0.25) {
+		wf = r.Intn(n) // one subscriber's link dies under the broker's write of this publish
+	}
 	for i := 0; i < n; i++ {
+		if i == wf {
+			extra = append(extra, Step{K: "writefail", At: int64(r.Range(100, 2000)), C: 1 + r.Intn(ns)})
+		}
 		extra = append(extra, Step{K: "pub", At: int64(r.Range(200, 4000)), C: 0, T: "r/x", S: fmt.Sprintf("x%d", i+1), Q: r.Intn(2), I: int64(100 + i)})
 	}
 	// insert before the final sleep
